@@ -10,45 +10,32 @@ HEADER = "From Qib Require Import TN.TNCheck.\n"
 CAP = 40000
 
 
-SIG_REN_VT = "rename_tensor:virtual-tensor-renamed-away:network-no-longer-consistent"
-SIG_TR_PART = "transpose:axes-not-a-permutation-of-all-open-axes-accepted:network-no-longer-consistent"
-SIG_MG_DIM = "merge:joined-axes-of-unequal-dimension-accepted:network-no-longer-consistent"
-
-
 def op_valid(kind, op, net, other=None, clash=False):
     """Must the implementation accept this operation?  Decided from the state before the call
-    (ids present, ranges, distinctness) - independent of what the implementation then does."""
+    (ids present, the virtual tensor, ranges, permutation, dimensions) - independent of what the
+    implementation then does.  An operation that is not valid must be refused (ValueError) and
+    leave the network unchanged; a valid one must be accepted."""
     stn = net.net
     if kind == "rename_tensor":
-        return op[1] in stn.tensors and op[2] not in stn.tensors
+        return op[1] != -1 and op[1] in stn.tensors and op[2] not in stn.tensors
     if kind == "rename_bond":
         return op[1] in stn.bonds and op[2] not in stn.bonds
     if kind == "transpose":
+        # the reference is numpy.transpose itself ("analogous to numpy.transpose"): on an array with as
+        # many axes as the network has open axes it accepts exactly the permutations of all axes,
+        # negative entries counting from the last axis
         n = stn.num_open_axes
-        axes = list(reversed(range(n))) if op[1] is None else list(op[1])
-        return len(set(axes)) == len(axes) and all(-n <= a < n for a in axes)
-    if kind in ("merge", "merge_self"):
-        n1, n2 = stn.num_open_axes, other.net.num_open_axes
-        return all(0 <= a < n1 and 0 <= b < n2 for a, b in op[2]) and not clash
-    raise RuntimeError(kind)
-
-
-def known_class(kind, op, net, other=None):
-    """The three caller obligations the code does not validate (KNOWN FINDINGS): returns the sig
-    when the operation is in one of these classes, else None.  Decided from the input alone."""
-    stn = net.net
-    if kind == "rename_tensor" and op[1] == -1 and -1 in stn.tensors and op[2] not in stn.tensors:
-        return SIG_REN_VT
-    if kind == "transpose" and op[1] is not None:
-        n = stn.num_open_axes
-        axes = list(op[1])
-        if len(set(axes)) == len(axes) and all(-n <= a < n for a in axes) and sorted(a % n for a in axes) != list(range(n)):
-            return SIG_TR_PART
+        if op[1] is None:
+            return True
+        try:
+            np.transpose(np.empty((1,) * n), [int(a) for a in op[1]])
+            return True
+        except Exception:
+            return False
     if kind in ("merge", "merge_self"):
         s1, s2 = stn.tensors[-1].shape, other.net.tensors[-1].shape
-        if all(0 <= a < len(s1) and 0 <= b < len(s2) for a, b in op[2]) and any(s1[a] != s2[b] for a, b in op[2]):
-            return SIG_MG_DIM
-    return None
+        return all(0 <= a < len(s1) and 0 <= b < len(s2) and s1[a] == s2[b] for a, b in op[2]) and not clash
+    raise RuntimeError(kind)
 
 
 def contraction_side(net, ref, kind, fails):
@@ -105,11 +92,11 @@ def exec_sequence(desc, ops):
         accepted, clash = True, False
         term = None
         other = None
-        valid, kcls = None, None
+        valid = None
         try:
             if kind == "rename_tensor":
                 term = "ORenT %s %s" % (ct.z(op[1]), ct.z(op[2]))
-                valid, kcls = op_valid(kind, op, net), known_class(kind, op, net)
+                valid = op_valid(kind, op, net)
                 net.net.rename_tensor(op[1], op[2])
             elif kind == "rename_bond":
                 term = "ORenB %s %s" % (ct.z(op[1]), ct.z(op[2]))
@@ -119,13 +106,10 @@ def exec_sequence(desc, ops):
                 axes = op[1]
                 n = net.num_open_axes
                 raw = list(reversed(range(n))) if axes is None else list(axes)
-                valid, kcls = op_valid(kind, op, net), known_class(kind, op, net)
-                # Python indexes shape[ax] / bids[ax]: a negative axis counts from the end
-                eff = [a % n if -n <= a < 0 else a for a in raw]
-                if all(a >= 0 for a in eff) and (len(set(eff)) == len(eff) or len(set(raw)) != len(raw)):
-                    term = "OTrans %s" % tn.nl(eff)
-                # else (negative axes that repeat an axis: accepted by the code, outside the model's nat axes):
-                # no model step; the sequence stops after this operation
+                valid = op_valid(kind, op, net)
+                # a negative axis counts from the last one (numpy.transpose); the model gets the raw axes
+                eff = [a + n if a < 0 else a for a in raw]
+                term = "OTrans %s" % tn.zl(raw)
                 net.transpose(None if axes is None else list(axes))
             elif kind in ("merge", "merge_self"):
                 other = net if kind == "merge_self" else tn.build(op[1])
@@ -147,7 +131,7 @@ def exec_sequence(desc, ops):
                 ocnt = (other.num_tensors, other.num_bonds, other.num_open_axes)
                 ovb = other_vbids(other)
                 clash = any(k in net.data and not np.array_equal(net.data[k], other.data[k]) for k in other.data)
-                valid, kcls = op_valid(kind, op, net, other, clash), known_class(kind, op, net, other)
+                valid = op_valid(kind, op, net, other, clash)
                 if kind == "merge":
                     others.append((other, osnap))
                 # the iteration order of the Python sets `self.keys() & other.keys()` inside merge is an input
@@ -155,7 +139,9 @@ def exec_sequence(desc, ops):
                 # copy in that order), do not only recompute it
                 from qib.tensor_network.symbolic_network import SymbolicTensorNetwork as _STN
                 called = {"t": [], "b": []}
-                _rt, _rb = _STN.rename_tensor, _STN.rename_bond
+                # merge relabels its private copy through _rename_tensor (the public rename_tensor refuses -1)
+                _rtname = "_rename_tensor" if hasattr(_STN, "_rename_tensor") else "rename_tensor"
+                _rt, _rb = getattr(_STN, _rtname), _STN.rename_bond
 
                 def _rec_t(self_, a, c, _f=_rt):
                     called["t"].append(a)
@@ -164,12 +150,14 @@ def exec_sequence(desc, ops):
                 def _rec_b(self_, a, c, _f=_rb):
                     called["b"].append(a)
                     return _f(self_, a, c)
-                _STN.rename_tensor, _STN.rename_bond = _rec_t, _rec_b
+                setattr(_STN, _rtname, _rec_t)
+                _STN.rename_bond = _rec_b
                 try:
                     try:
                         net.merge(other, list(joins))
                     finally:
-                        _STN.rename_tensor, _STN.rename_bond = _rt, _rb
+                        setattr(_STN, _rtname, _rt)
+                        _STN.rename_bond = _rb
                         if len(called["t"]) == len(ordT) and len(called["b"]) == len(ordB):
                             if called["t"] != ordT or called["b"] != ordB:
                                 rec["set_order_differs"] = rec.get("set_order_differs", 0) + 1
@@ -211,9 +199,21 @@ def exec_sequence(desc, ops):
                 fails.append((kind + ":refuses-valid-operation", "accepted", "ValueError"))
             rec["steps"].append({"op": op, "term": term, "obs": None, "skip": term is None})
             continue
-        if valid is False and not clash:
-            fails.append((kind + ":accepts-invalid-operation", "ValueError", "accepted"))
         cons = bool(safe_consistent(net.net))
+        if valid is False and not clash:
+            # the code must refuse it: renaming the virtual tensor, axes that are not a permutation of all
+            # open axes, joins out of range or of unequal dimension.  Nothing is claimed about the state
+            # such a call leaves; the sequence ends here
+            fails.append((kind + ":accepts-invalid-operation", "ValueError", "accepted"))
+            if not cons:
+                fails.append((kind + ":is_consistent-false-after-accepted-op", True, False))
+            try:
+                cnt = (net.num_tensors, net.num_bonds, net.num_open_axes)
+            except RuntimeError:
+                cnt = (0, net.num_bonds, 0)
+            rec["steps"].append({"op": op, "term": term, "obs": (tn.net_term(net.net, refs), cons, cnt), "skip": term is None})
+            stopped = True
+            break
         try:
             cnt = (net.num_tensors, net.num_bonds, net.num_open_axes)
         except RuntimeError:
@@ -221,16 +221,6 @@ def exec_sequence(desc, ops):
         rec["steps"].append({"op": op, "term": term,
                              "obs": (tn.net_term(net.net, refs), cons, cnt), "skip": term is None})
         # ---------------- oracles on the implementation
-        if kcls is not None:
-            # one of the three unvalidated caller obligations: the property fails on this input in
-            # the listed way (is_consistent() False) - anything else is a new behaviour
-            if cons != tn.ref_consistent(net.net):
-                fails.append((kind + ":is_consistent-disagrees-with-exact-incidence", tn.ref_consistent(net.net), cons))
-            elif not cons:
-                fails.append((kcls, True, False))
-            # else: benign instance (e.g. the repeated and the dropped axis share a bond): no violation here
-            stopped = True
-            break
         if term is None:
             stopped = True
             break
@@ -313,16 +303,16 @@ def gen_ops(rng, desc, thorough):
                 n = stn.num_open_axes
                 q = rng.randrange(8)
                 if q == 0:
-                    op = ["rename_tensor", -1, rng.randint(-6, 12)]            # the virtual tensor (KNOWN FINDING when accepted)
+                    op = ["rename_tensor", -1, rng.randint(-6, 12)]            # the virtual tensor: must be refused
                 elif q == 1 and n >= 2:
                     axes = list(range(n)); rng.shuffle(axes)
-                    op = ["transpose", axes[:rng.randint(1, n - 1)]]           # not all axes (KNOWN FINDING)
+                    op = ["transpose", axes[:rng.randint(1, n - 1)]]           # not all axes: must be refused
                 elif q == 2 and n >= 1:
                     axes = list(range(n)); rng.shuffle(axes)
                     op = ["transpose", [a - n if rng.random() < 0.5 else a for a in axes]]   # negative axes, a permutation
                 elif q == 3 and n >= 2:
                     axes = list(range(n)); rng.shuffle(axes)
-                    axes[0] = axes[1] - n                                       # repeats an axis through a negative index (KNOWN FINDING)
+                    axes[0] = axes[1] - n                                       # repeats an axis through a negative index: must be refused
                     op = ["transpose", axes]
                 elif q == 4:
                     axes = list(range(n)); rng.shuffle(axes)
@@ -350,7 +340,7 @@ def gen_ops(rng, desc, thorough):
                         bad = [(a, b) for a in range(len(s1)) for b in range(len(s2)) if s1[a] != s2[b]]
                         if not bad:
                             continue
-                        joins = [list(rng.choice(bad))]                         # unequal dimensions (KNOWN FINDING)
+                        joins = [list(rng.choice(bad))]                         # unequal dimensions: must be refused
                     else:
                         a = rng.randrange(len(s1)) if len(s1) else 0
                         joins = [rng.choice([[a, len(s2)], [a, len(s2) + 1], [a, -1], [-1, 0], [len(s1), 0]])]   # out of range: refused
@@ -495,11 +485,20 @@ _G = {"tensors": [[0, [2, 3, 2], [0, 1, 2], "a"], [-1, [2, 3, 2], [0, 1, 2], Non
 _H = {"tensors": [[4, [2, 3], [7, 8], "h"], [-1, [2, 3], [7, 8], None]], "bonds": None,
       "data": {"h": {"shape": [2, 3], "re": [1, 0, 2, -1, 1, 3], "im": None}}}
 DIRECTED += [
-    # the three caller obligations the code does not validate (KNOWN FINDINGS, theorem guards)
+    # calls the code used to accept and that left an inconsistent network (repaired defects): must be
+    # refused, the network must stay as it was and usable
     ("rename-virtual-tensor", _G, [["rename_tensor", -1, 5]]),
     ("transpose-not-all-axes", _G, [["transpose", [2]]]),
     ("transpose-negative-axis-repeats-an-axis", _G, [["transpose", [-1, 0, 2]]]),
     ("merge-unequal-dimensions", _G, [["merge", _H, [[0, 1]]]]),
+    ("merge-one-join-equal-one-unequal", _G, [["merge", _H, [[0, 0], [1, 0]]], ["merge", _H, [[2, 0], [1, 1]]]]),
+    ("transpose-no-axes-or-too-many", _G, [["transpose", []], ["transpose", [0, 1, 2, 0]], ["transpose", [0, 1, 2, 3]], ["transpose", [1, 1, 1]]]),
+    ("refused-operations-leave-the-network-usable", _G,
+     [["rename_tensor", -1, 5], ["transpose", [2]], ["merge", _H, [[0, 1]]], ["transpose", [-1, 0, 2]], ["rename_tensor", -1, -1],
+      ["merge", _H, [[0, 0]]], ["rename_tensor", 0, 5], ["transpose", [-1, 1, 0]], ["rename_tensor", -1, 9]]),
+    ("no-open-axes", {"tensors": [[0, [2], [0], "a"], [1, [2], [0], "b"], [-1, [], [], None]], "bonds": None,
+                      "data": {"a": {"shape": [2], "re": [1, 2], "im": None}, "b": {"shape": [2], "re": [3, -1], "im": None}}},
+     [["transpose", []], ["transpose", None], ["transpose", [0]], ["rename_tensor", -1, 4], ["merge", _H, []], ["transpose", [1, 0]]]),
     # edges that must be refused / accepted
     ("transpose-negative-axes-permutation", _G, [["transpose", [-1, 0, -2]], ["transpose", [1, -3, 2]]]),
     ("transpose-axis-out-of-range", _G, [["transpose", [0, 1, 3]], ["transpose", [0, -4, 1]], ["transpose", [0, 1, 2]]]),
@@ -546,20 +545,26 @@ def run(ctx):
                        "`self.keys() & other.keys()` in merge is an input of the model (recorded from the run; the theorems hold "
                        "for every order); TensorNetwork.merge's data-dictionary union is not modelled (datarefs are codes); "
                        "'never modifies the second operand' is checked on the implementation by deep snapshots")
-    ctx.assumes.append("model = /repo with the proposed repairs proposed_fixes/C08-merge-dedupe-del-axes.diff, C08-transpose-default-axes.diff and C07-is-consistent-leg-count.diff; joins are dimension-"
-                       "compatible and the transposition is a permutation (the code validates neither); the virtual tensor -1 is not renamed "
-                       "- these three are theorem guards AND known findings: the harness runs such inputs on every run, the model reproduces "
-                       "the inconsistent network exactly, C08_*_refuted prove the guards necessary")
+    ctx.assumes.append("model = /repo with the repairs C08-merge-dedupe-del-axes, C08-transpose-default-axes, C07-is-consistent-leg-count (applied) and "
+                       "proposed_fixes/C08-transpose-requires-permutation.diff, C08-merge-checks-join-dimensions.diff, C08-rename-tensor-refuses-virtual.diff: "
+                       "the code itself refuses renaming the virtual tensor -1, axes that are not a permutation of all open axes (negative entries count "
+                       "from the last axis) and joins of unequal dimension, so the theorems carry no guard on the arguments; the only hypothesis left is that "
+                       "the second operand of a merge is itself consistent")
     ctx.trusted.append("TN translation (gen/tn.py -> Run.GenTN, fail-closed): merge's fresh-id arithmetic / join validation / del_axes / kept axes, "
                        "the preconditions of rename_tensor, rename_bond, SymbolicBond, SymbolicTensor.transpose, every `return False` condition of "
-                       "is_consistent, the first tree id and bump rule, as_einsum's sort key and axes-map rule are regenerated from symbolic_network.py "
-                       "and proved equal to what the model uses (C07_source_*, C08_source_*); PINNED by exact source text, not translated: the loop "
-                       "skeleton of is_consistent, its pair-repetition test, as_einsum's first-occurrence rule, transpose's distinctness test; "
+                       "is_consistent, the first tree id and bump rule, as_einsum's sort key and axes-map rule, rename_tensor's guard on the virtual tensor and its "
+                       "delegation to _rename_tensor, transpose's normalisation of negative axes / permutation test / selection, merge's dimension test are "
+                       "regenerated from symbolic_network.py and proved equal to what the model uses (C07_source_*, C08_source_*); PINNED by exact source text, "
+                       "not translated: the loop skeleton of is_consistent, its pair-repetition test, as_einsum's first-occurrence rule, the statement order of "
+                       "transpose and of merge's validation loop; "
                        "all loops (rename, merge_tensors/bonds, get_bond_axes, as_einsum unification/condensation, tree builder) stay hand-modelled")
     ctx.rules.append("random consistent networks (0-6 tensors, degree<=4, bond dims 1-3, hyper-bonds, multi-edges, self-traces, shared "
                      "open bonds, identity wires, negative/colliding ids) x random operation sequences (length<=12; rename_tensor, "
                      "rename_bond, transpose incl. refused ones, merge with colliding ids / shared datarefs equal+unequal / joins "
-                     "reusing axes / out-of-range joins). non-trivial = sequence with >=1 accepted operation on a network with >=1 bond")
+                     "reusing axes / out-of-range joins; ~10% edge inputs: rename of the virtual tensor, partial / repeating / negative / "
+                     "out-of-range axes, joins of unequal dimension, merge with itself). Every operation is classified valid/invalid from the "
+                     "state before the call (numpy.transpose is the reference for axes): valid ones must be accepted, invalid ones refused "
+                     "with the state unchanged. non-trivial = sequence with >=1 accepted operation on a network with >=1 bond")
     ctx.lib(["TN/TNCheck", "TN/TNSem", "TN/TNConsistentConv", "TN/TNGenBase"])
     ctx.translate("GenTN", tn.generate)
     ctx.props()
